@@ -310,3 +310,138 @@ pub fn root_alphabet(prog: &Program) -> Vec<Item> {
     v.extend(level_wide_items());
     v
 }
+
+// ------------------------------------------------------------------ enum corpus (C09)
+
+pub const N_VKINDS: usize = 10;
+pub const VKIND_NAMES: [&str; N_VKINDS] = ["unit", "unit_renamed", "unit_skipped", "unit_word", "newtype_u32", "newtype_opt", "newtype_struct", "struct", "struct_skipped", "unit_word_false"];
+const VSLOT_NAMES: [&str; 3] = ["AlphaBeta", "Gamma", "DeltaX9"];
+
+fn kind_variant(kind: usize, slot: usize, pool: &mut Vec<Decl>) -> Variant {
+    let mut v = Variant { rust: VSLOT_NAMES[slot].into(), rename: None, skip: false, word: None, body: VBody::Unit };
+    match kind {
+        0 => {}
+        1 => v.rename = Some(format!("rn{slot}")),
+        2 => v.skip = true,
+        3 => v.word = Some(true),
+        4 => v.body = VBody::Newtype(Ty::U32),
+        5 => v.body = VBody::Newtype(Ty::OptU32),
+        6 => v.body = VBody::Newtype(Ty::Struct(child_struct(pool, false))),
+        7 => v.body = VBody::Struct(vec![Field::new("x", Ty::U32)]),
+        8 => {
+            let mut y = Field::new("y_z", Ty::U32);
+            y.dflt = Dflt::Fn;
+            v.body = VBody::Struct(vec![Field::new("x", Ty::U32), y]);
+            v.skip = true;
+        }
+        9 => v.word = Some(false),
+        _ => panic!("vkind"),
+    }
+    v
+}
+
+/// Enum container configurations: (rule, from_word, from_none, allow_unknown)
+pub fn enum_configs(thorough: bool) -> Vec<(Option<Rule>, bool, bool, Option<bool>)> {
+    let mut v = vec![(None, false, false, None), (Some(Rule::Camel), false, false, None), (None, true, true, None), (Some(Rule::Screaming), false, false, Some(true)), (None, false, false, Some(false))];
+    if thorough {
+        for r in [Rule::None, Rule::Lower, Rule::Pascal, Rule::Snake, Rule::Kebab] {
+            v.push((Some(r), false, false, None));
+        }
+        v.push((None, true, false, None));
+        v.push((None, false, true, Some(false)));
+        v.push((Some(Rule::Kebab), false, true, Some(true)));
+    }
+    v
+}
+
+pub fn enum_program(kinds: &[usize], cfg: (Option<Rule>, bool, bool, Option<bool>)) -> Option<Program> {
+    let mut pool: Vec<Decl> = vec![Decl::Enum(EnumDecl { rule: None, from_word: false, from_none: false, allow_unknown: None, variants: vec![] })];
+    let variants: Vec<Variant> = kinds.iter().enumerate().map(|(slot, k)| kind_variant(*k, slot, &mut pool)).collect();
+    let words = variants.iter().filter(|v| v.word.is_some()).count();
+    if words > 1 || (words > 0 && cfg.1) {
+        return None; // rejected at derive time (C10's business)
+    }
+    let has_unit = variants.iter().any(|v| !v.skip && v.body == VBody::Unit);
+    if (cfg.1 || cfg.2) && !has_unit {
+        return None; // the generated from_word / from_none functions return a unit variant
+    }
+    let e = EnumDecl { rule: cfg.0, from_word: cfg.1, from_none: cfg.2, allow_unknown: cfg.3, variants };
+    pool[0] = Decl::Enum(e);
+    let fam = format!("enum [{}] cfg({:?},{},{},{:?})", kinds.iter().map(|k| VKIND_NAMES[*k]).collect::<Vec<_>>().join(","), cfg.0, cfg.1, cfg.2, cfg.3);
+    Some(Program { decls: pool, root: 0, family: fam })
+}
+
+pub fn enum_corpus(thorough: bool) -> Vec<Program> {
+    let mut out = vec![];
+    for cfg in enum_configs(thorough) {
+        for a in 0..N_VKINDS {
+            out.extend(enum_program(&[a], cfg));
+            for b in 0..N_VKINDS {
+                out.extend(enum_program(&[a, b], cfg));
+                if thorough {
+                    for c in 0..N_VKINDS {
+                        out.extend(enum_program(&[a, b, c], cfg));
+                    }
+                }
+            }
+        }
+    }
+    if !thorough {
+        // a slice of the three-variant enums for the quick tier
+        for a in 0..N_VKINDS {
+            out.extend(enum_program(&[a, (a + 4) % N_VKINDS, (a + 7) % N_VKINDS], (None, false, false, None)));
+        }
+    }
+    out
+}
+
+/// All whole-item forms tried on an enum root named `e` (word, name-value) ...
+pub fn enum_root_forms(prog: &Program) -> Vec<Item> {
+    let en = prog.en(prog.root);
+    let mut names: Vec<String> = vec![];
+    for v in &en.variants {
+        names.push(en.eff_name(v));
+        names.push(v.rust.clone());
+        for r in Rule::ALL {
+            names.push(r.variant(&v.rust));
+        }
+        if let Some(r) = &v.rename {
+            names.push(r.clone());
+            names.push(format!("{r}x"));
+        }
+    }
+    names.push("zz".into());
+    names.push("alpha_bet".into());
+    names.sort();
+    names.dedup();
+    let mut v = vec![Item::word("e"), Item::nv("e", "5"), Item::nv("e", "true"), Item::nv("e", "'c'"), Item::nv("e", "1 + 2"), Item::nv("e", "a::b")];
+    for n in &names {
+        v.push(Item::nv("e", &format!("\"{n}\"")));
+    }
+    v
+}
+
+/// ... and the alphabet of nested items for the list form.
+pub fn enum_list_alphabet(prog: &Program) -> Vec<Item> {
+    let en = prog.en(prog.root);
+    let mut names: Vec<String> = vec![];
+    for v in &en.variants {
+        names.push(en.eff_name(v));
+        names.push(v.rust.clone());
+    }
+    names.sort();
+    names.dedup();
+    let mut out = vec![];
+    for n in names.iter().filter(|n| !n.contains('-')) {
+        out.push(Item::word(n));
+        out.push(Item::nv(n, "1"));
+        out.push(Item::nv(n, "\"x\""));
+        out.push(Item::list(n, vec![Item::nv("x", "1")]));
+        out.push(Item::list(n, vec![Item::nv("X", "1")]));
+        out.push(Item::list(n, vec![Item::nv("x", "1"), Item::nv("zz", "1")]));
+        out.push(Item::list(n, vec![]));
+    }
+    out.push(Item::lit("\"lit\""));
+    out.push(Item::word("zz"));
+    out
+}
